@@ -100,6 +100,8 @@ class Facts:
             for k in d['consts']:
                 k['crate'] = c
                 dict.__setitem__(self.consts, k['path'], k)
+                if k.get('mutable'):
+                    k.pop('val', None)      # a `static mut` does not keep its initialiser
                 v = k.get('val')
                 if isinstance(v, dict) and 'array' in v:
                     vals = []
@@ -195,6 +197,26 @@ class Facts:
                     missing = [(n, t) for n, t in missing if n not in paths]
                     used_outer = {pth[0] for pth in paths.values()}
                     extra = [f for f in extra if fields.index(f) not in used_outer]
+            if not missing or not extra:
+                continue
+            # (b) the value is kept in a single-field wrapper type of a dependency (`channel: u8` held as `midi_types::Channel`):
+            # the rules see the wrapped scalar under the canonical name
+            for n, t in list(missing):
+                c = []
+                for f in extra:
+                    sub = self.adts.get(f['ty'].get('path')) if f['ty'].get('k') == 'adt' else None
+                    if sub is None or sub.get('kind') != 'struct' or sub.get('crate') == a.get('crate') or len(sub['variants'][0]['fields']) != 1:
+                        continue
+                    g = sub['variants'][0]['fields'][0]
+                    if self._tykey(g['ty']) == self._tykey(t):
+                        c.append((f, g))
+                if len(c) == 1:
+                    f, g = c[0]
+                    a.setdefault('canon_paths', {})[n] = [fields.index(f), 0]
+                    a.setdefault('canon_leaf_ty', {})[n] = g['ty']
+                    self.field_aliases.setdefault(path, {})[n] = '%s (wrapped in %s)' % (f['name'], f['ty'].get('path', '?').split('::')[-1])
+                    missing.remove((n, t))
+                    extra = [x for x in extra if x is not f]
             if not missing or not extra:
                 continue
             used = set()
